@@ -11,6 +11,7 @@
 #include <sys/syscall.h>
 #include <sys/types.h>
 #include <sys/mman.h>
+#include <sys/prctl.h>
 #include <pthread.h>
 #include <sys/stat.h>
 #include <sys/socket.h>
@@ -286,6 +287,36 @@ int main(int argc, char **argv) {
     }
     n += snprintf(buf + n, sizeof buf - n, "}\n");
     write(1, buf, n);
+    _exit(0);
+  } else if (!strcmp(c, "secstate")) {
+    // self-report of the security state at the first instruction, one JSON object into the file argv[2]
+    static char buf[8192], lk[256]; int n = 0;
+    struct { unsigned int version; int pid; } hdr = {0x20080522, 0};
+    struct { unsigned int eff, perm, inh; } data[2]; memset(data, 0, sizeof data);
+    syscall(SYS_capget, &hdr, data);
+    uid_t ru, eu, su; gid_t rg, eg, sg; getresuid(&ru, &eu, &su); getresgid(&rg, &eg, &sg);
+    gid_t gl[64]; int ng = getgroups(64, gl);
+    struct { char s[6][65]; } un; syscall(SYS_uname, &un);
+    static char cwd[4096]; if (!getcwd(cwd, sizeof cwd)) cwd[0] = 0;
+    n += snprintf(buf + n, sizeof buf - n, "{\"uid\":[%d,%d,%d],\"gid\":[%d,%d,%d],\"groups\":[", ru, eu, su, rg, eg, sg);
+    for (int i = 0; i < ng; i++) n += snprintf(buf + n, sizeof buf - n, "%s%d", i ? "," : "", gl[i]);
+    n += snprintf(buf + n, sizeof buf - n, "],\"cap_eff\":[%u,%u],\"cap_perm\":[%u,%u],\"cap_inh\":[%u,%u],", data[0].eff, data[1].eff, data[0].perm, data[1].perm, data[0].inh, data[1].inh);
+    int amb = 0; for (int cap = 0; cap < 41; cap++) if (prctl(47 /*PR_CAP_AMBIENT*/, 1 /*IS_SET*/, cap, 0, 0) == 1) amb++;
+    n += snprintf(buf + n, sizeof buf - n, "\"ambient\":%d,\"securebits\":%d,\"nnp\":%d,\"seccomp\":%d,", amb, prctl(27 /*PR_GET_SECUREBITS*/), prctl(39 /*PR_GET_NO_NEW_PRIVS*/, 0, 0, 0, 0), prctl(21 /*PR_GET_SECCOMP*/));
+    n += snprintf(buf + n, sizeof buf - n, "\"pid\":%d,\"sid\":%d,\"pgid\":%d,\"cwd\":\"%s\",\"host\":\"%s\",\"domain\":\"%s\",\"ns\":{", getpid(), getsid(0), getpgid(0), cwd, un.s[1], un.s[5]);
+    const char *nss[] = {"user", "pid", "mnt", "uts", "ipc", "net", "cgroup"};
+    for (int i = 0; i < 7; i++) {
+      static char pth[64]; snprintf(pth, sizeof pth, "/proc/self/ns/%s", nss[i]);
+      ssize_t l = readlink(pth, lk, sizeof lk - 1); lk[l < 0 ? 0 : l] = 0;
+      n += snprintf(buf + n, sizeof buf - n, "%s\"%s\":\"%s\"", i ? "," : "", nss[i], lk);
+    }
+    // seccomp filter count from /proc/self/status
+    int nf = -1; FILE *st = fopen("/proc/self/status", "r");
+    if (st) { static char ln[256]; while (fgets(ln, sizeof ln, st)) if (!strncmp(ln, "Seccomp_filters:", 16)) nf = atoi(ln + 16); fclose(st); }
+    n += snprintf(buf + n, sizeof buf - n, "},\"filters\":%d}\n", nf);
+    int fd = open(argv[2], O_CREAT | O_WRONLY | O_TRUNC, 0666);
+    if (fd < 0) { write(1, buf, n); _exit(0); }
+    write(fd, buf, n); close(fd);
     _exit(0);
   } else if (!strcmp(c, "verdicts")) {
     _exit(verdicts(argv[2], argv[3], argv[4]));
